@@ -219,6 +219,18 @@ def _store_array(
                 )
                 warn(warn_msg, stacklevel=2)
                 source = source.rechunk(target.shards)
+    if is_storage_array(target) and region is None:
+        try:
+            target_chunks = target.chunks
+        except NotImplementedError:
+            target_chunks = None  # rectilinear chunk grids don't support .chunks
+        if target_chunks is not None and any(
+            sc % tc != 0 and nb > 1
+            for sc, tc, nb in zip(source.chunksize, target_chunks, source.numblocks)
+        ):
+            # each task must write whole target chunks, otherwise concurrent
+            # tasks would update the same target chunk and lose data
+            source = source.rechunk(target_chunks)
     if not is_storage_array(target):
         target = lazy_zarr_array(
             target,
